@@ -67,6 +67,18 @@ Section C19.
   Theorem C19_returned_error_is_genuine : forall s e, reachable s -> d s = Ret (Some e) -> failing e = true.
   Proof. exact (returned_error_is_genuine jobs k pp fail_pp fail_w). Qed.
 
+  (* Full strength of "returns an error iff something failed": the returned error was sent by a
+     worker of THIS execution that was started and did fail (second invariant errs_reported: every
+     entry of the error channel, and the received one, belongs to a worker in state Reported or
+     later), and the result is an error exactly when some started job failed. *)
+  Theorem C19_returned_error_from_failed_job : forall s e, reachable s -> d s = Ret (Some e) ->
+    has_failed (getw s e) = true /\ failing e = true /\ e < n.
+  Proof. exact (returned_error_from_failed_job jobs k pp fail_pp fail_w). Qed.
+
+  Theorem C19_error_iff_failure : forall s r, reachable s -> d s = Ret r ->
+    (r <> None <-> exists j, has_failed (getw s j) = true).
+  Proof. exact (error_iff_failure jobs k pp fail_pp fail_w). Qed.
+
   (* At return no worker is between go and wg.Done(): no post-processing or write of this call
      is in flight or still to come ... *)
   Theorem C19_no_write_in_flight_at_return : forall s, reachable s -> is_ret s = true ->
@@ -134,6 +146,8 @@ Print Assumptions C19_ok_implies_all_written.
 Print Assumptions C19_failure_implies_error.
 Print Assumptions C19_fault_implies_error.
 Print Assumptions C19_returned_error_is_genuine.
+Print Assumptions C19_returned_error_from_failed_job.
+Print Assumptions C19_error_iff_failure.
 Print Assumptions C19_no_write_in_flight_at_return.
 Print Assumptions C19_after_return_only_release.
 Print Assumptions C19_never_twice_never_mixed.
